@@ -30,7 +30,7 @@ ASSUMPTIONS = [
     "protocol callbacks may raise in these situations (e.g. ACK for a DATA frame that follows an ERROR frame in the same read: transport already closed); the transport contract turns that into a harmless second connection_lost; counted as a probe",
     "bound for calls in progress: 10 s command timeout + 16 s (five ACK timeouts of at most 3.2 s) + 0.5 s slack after the injection",
 ]
-PROBES = ["threaded.runs", "threaded.preempted_in_proxy", "kind.error", "kind.rstack", "kind.silent", "kind.lost", "kind.eof", "kind.close", "workload.idle", "workload.one", "workload.queued",
+PROBES = ["faulty_link_before_injection", "threaded.runs", "threaded.preempted_in_proxy", "kind.error", "kind.rstack", "kind.silent", "kind.lost", "kind.eof", "kind.close", "workload.idle", "workload.one", "workload.queued",
           "workload.reset", "workload.startup", "reported", "reported_twice", "silent_detected_by_retries", "silent_during_reset_timeout",
           "data_received_raised", "inject_at_timer_deadline", "calls_in_progress_at_injection", "sched.batch", "sched.reorder", "sched.join"]
 
@@ -66,7 +66,7 @@ def plan(tier):
     return {
         "sweeps": sweeps,
         "exhaustive": f"failure kind x code x {npts} injection instants (just before/after every wire event of the 5 scripted workloads), each event in its own loop iteration",
-        "random": [("random", {}, 3), ("threaded", {}, 1)],
+        "random": [("random", {}, 3), ("threaded", {}, 1), ("faulty", {}, 1)],
         "runs": 1600 if tier == "quick" else None,
         "budget_s": 60 if tier == "quick" else 900,
         "batch": 25,
@@ -86,12 +86,23 @@ def run(scenario, params, tape, detail=False):
         code = ERR_CODES[tape.draw(len(ERR_CODES), "code")]
     elif kind == "rstack":
         code = RST_CODES[tape.draw(len(RST_CODES), "code")]
-    return run_one(w, kind, code, ("draw",), tape, True, detail)
+    return run_one(w, kind, code, ("draw",), tape, True, detail, faulty=(scenario == "faulty"))
 
 
-def run_one(workload, kind, code, at, tape, sched, detail, dry=False):
+def run_one(workload, kind, code, at, tape, sched, detail, dry=False, faulty=False):
     sock = workload == "startup"
-    rig = e3.StackRig(tape, version=8, path="socket://sim:1" if sock else "/dev/ttySIM", sched=sched, fast_line=True, chunking=False, max_iters=300_000)
+    if faulty:
+        # link faults (and read chunking, NCP window) until the injection; the failure itself is then delivered over a clean line
+        from ..line import FaultPlan
+
+        plan_ = FaultPlan.swarm(tape)
+        plan_.on = False
+        rig = e3.StackRig(tape, version=(4, 8, 13, 14)[tape.draw(4, "V")], path="socket://sim:1" if sock else "/dev/ttySIM", sched=sched, plan=plan_,
+                          K=1 + tape.draw(3, "K"), max_iters=300_000)
+        rig.line.ties = False
+    else:
+        plan_ = None
+        rig = e3.StackRig(tape, version=8, path="socket://sim:1" if sock else "/dev/ttySIM", sched=sched, fast_line=True, chunking=False, max_iters=300_000)
     loop, ncp, nash = rig.loop, rig.ncp, rig.ncp_ash
     viol, probes = [], {}
 
@@ -130,6 +141,9 @@ def run_one(workload, kind, code, at, tape, sched, detail, dry=False):
         return c
 
     def inject():
+        if plan_ is not None:
+            plan_.stop()
+            rig.line._latency = lambda: 0.001
         st["t_inj"] = loop.time()
         st["writes_at_inj"] = len(rig.host_writes)
         st["in_progress"] = [c for c in calls if c["t_end"] is None]
@@ -167,6 +181,9 @@ def run_one(workload, kind, code, at, tape, sched, detail, dry=False):
         await asyncio.sleep(0.1)
         st["t_ready"] = loop.time()
         t0 = loop.time()
+        if plan_ is not None:
+            plan_.on = True
+            probe("faulty_link_before_injection")
         # choose the injection instant
         if not dry:
             if isinstance(at, (list, tuple)) and at[0] == "timer":
@@ -331,7 +348,10 @@ def run_one(workload, kind, code, at, tape, sched, detail, dry=False):
             probes[k] = probes.get(k, 0) + v
     at_key = round(st["t_inj"], 5) if st["t_inj"] is not None else None
     sig = hashlib.blake2b(repr((workload, kind, code, at_key)).encode(), digest_size=8).digest()
-    res = {"viol": viol, "faults": {"inject." + (kind or "none"): 1}, "probes": probes, "vt": loop.time(), "iters": loop.iters, "sig": sig, "nontrivial": True,
+    fired = {"inject." + (kind or "none"): 1}
+    if plan_ is not None:
+        fired.update({k: v for k, v in plan_.fired.items() if not k.endswith(".deliver")})
+    res = {"viol": viol, "faults": fired, "probes": probes, "vt": loop.time(), "iters": loop.iters, "sig": sig, "nontrivial": True,
            "digest": hashlib.sha256(repr((rig.log, [(c["name"], c["t_end"], c["outcome"] and c["outcome"][0]) for c in calls])).encode()).hexdigest()[:16],
            "sample": {"workload": workload, "kind": kind, "code": code, "t_inject": st["t_inj"], "reports": [(round(r[0], 4), repr(r[1])[:60]) for r in reports[:3]],
                       "calls": [(c["name"], c["outcome"] and (c["outcome"][0], type(c["outcome"][1]).__name__ if len(c["outcome"]) > 1 else None), c["t_end"]) for c in calls]}}
